@@ -23,12 +23,12 @@ type Harness struct {
 	Thorough [][]int64 // argument tuples for the thorough tier (nil: same as Quick)
 	Covers   []string  // labels that must be reached on some path (vacuity guard)
 	// how non-ok outcomes are classified
-	StepLimitIsViolation bool     // the harness asserts termination within MaxSteps
-	ExitIsViolation      bool     // os.Exit reaching the top is a violation
-	MaxSteps             int64    // per path (0: default)
+	StepLimitIsViolation bool                                                              // the harness asserts termination within MaxSteps
+	ExitIsViolation      bool                                                              // os.Exit reaching the top is a violation
+	MaxSteps             int64                                                             // per path (0: default)
 	Confirm              func(r *runner, args []int64, v gosym.PathOutcome) (bool, string) // property specific native confirmation (replaces the replay of the harness)
-	NativeRetries        int      // repeat the native replay up to n times (runtime-chosen schedules such as map order)
-	AllowInconclusive    []string // substrings of inconclusive reasons that are tolerated (stated in evidence)
+	NativeRetries        int                                                               // repeat the native replay up to n times (runtime-chosen schedules such as map order)
+	AllowInconclusive    []string                                                          // substrings of inconclusive reasons that are tolerated (stated in evidence)
 	Note                 string
 }
 
@@ -44,14 +44,14 @@ type Prop struct {
 	Functions      []string // functions encoded (for evidence)
 	Bounds         string
 	Assumptions    []string
-	Prepare        func(r *runner) error // e.g. code generation into a scratch module
-	NoOverlay      bool                  // harness files are real files of a scratch module
-	Variants       []*Prop               // sub-checks (e.g. generator configurations) run one after the other; results are merged
-	Label          string                // variant label
-	ExtraNative    map[string]string // native test cases: case name -> Go expression of type string
-	Custom      func(r *runner, ev *evidence, pool *gosym.Pool) int // property specific deciding step (replaces the harness loop)
-	SchedMaxJ      int64 // gosched: bound on the number of jobs (0: the tier's default)
-	RealMeta       bool // run the real meta registry (reflection) instead of the no-op stub
+	Prepare        func(r *runner) error                               // e.g. code generation into a scratch module
+	NoOverlay      bool                                                // harness files are real files of a scratch module
+	Variants       []*Prop                                             // sub-checks (e.g. generator configurations) run one after the other; results are merged
+	Label          string                                              // variant label
+	ExtraNative    map[string]string                                   // native test cases: case name -> Go expression of type string
+	Custom         func(r *runner, ev *evidence, pool *gosym.Pool) int // property specific deciding step (replaces the harness loop)
+	SchedMaxJ      int64                                               // gosched: bound on the number of jobs (0: the tier's default)
+	RealMeta       bool                                                // run the real meta registry (reflection) instead of the no-op stub
 	QuickBudget    time.Duration
 	ThoroughBudget time.Duration
 }
@@ -151,6 +151,12 @@ func (r *runner) runVariants(ev *evidence) int {
 		}
 		if sub.Bounds == "" {
 			sub.Bounds = spec.Bounds
+		}
+		if sub.QuickBudget == 0 {
+			sub.QuickBudget = spec.QuickBudget
+		}
+		if sub.ThoroughBudget == 0 {
+			sub.ThoroughBudget = spec.ThoroughBudget
 		}
 		if r.replayRec != nil && !r.replayRec.matches(&sub) {
 			continue
